@@ -251,6 +251,22 @@ func (p *projector) seqOf(msg proto.Message) int64 {
 	return int64(n)
 }
 
+func (p *projector) seqOfData(msg proto.Message) int64 {
+	t := p.a.dataDB.GetTable(msg)
+	var buf bytes.Buffer
+	must(t.ExportJSON(p.ctx, &buf))
+	var arr []json.RawMessage
+	must(json.Unmarshal(buf.Bytes(), &arr))
+	if len(arr) == 0 {
+		return 0
+	}
+	var n uint64
+	if err := json.Unmarshal(arr[0], &n); err != nil {
+		return 0
+	}
+	return int64(n)
+}
+
 // ProjectEco renders the whole ecocredit + bank state.
 func (a *App) ProjectEco(ctx sdk.Context) (*State, *Notes) {
 	n := &Notes{Malformed: []string{}, OffLattice: []string{}, Extra: []string{}, Overflow: []string{}}
